@@ -415,7 +415,8 @@ class SQLiteProvider(DBAPIProvider):
                     sql = 'PRAGMA foreign_keys = false'
                     if core.local.debug: log_orm(sql)
                     cursor.execute(sql)
-                cache.saved_fk_state = bool(fk)
+                if fk: cache.saved_fk_state = True  # a later transaction of the same session finds the checks switched off already
+                elif cache.saved_fk_state is None: cache.saved_fk_state = False
                 assert cache.immediate
 
             if cache.immediate:
